@@ -330,7 +330,10 @@ class binary_sequence():
             The binary sequence data.
         """
         if isinstance(data, str):
-            data = str2array(data)
+            try:
+                data = str2array(data)
+            except OverflowError as e:  # an integer literal beyond the C long range: certainly not a 0/1 pattern
+                raise ValueError("The array must contain only 0's and 1's!") from e
         else:
             data = np.array(data)
 
